@@ -205,3 +205,89 @@ class ImportReferences(Contract):
                 return z3.BoolVal(kd == "return" and tuple(st.ghost.get("events", ())) == want)
             out.append(Case(label, [s, prev], post, heap=heap, models=models))
         return out
+
+
+@register
+class Disconnect(Contract):
+    fn = "gfapy/line/common/disconnection.py::Disconnection.disconnect"
+    props = ("C05", "C02", "C08")
+    fragment = "H"
+    doc = ("disconnect(): a line that is not connected is refused (RuntimeError) untouched; otherwise, in this order (the back-references are "
+           "found THROUGH the reference fields, so they go first): back-references of the reference fields, the reference fields (turned into "
+           "names), the dependent lines, the other back-references, the line's own collections, the registry entry, and last the owner")
+
+    def cases(self, ctx):
+        g = ctx.gfapy
+        connected = z3.Bool("connected")
+        s, gfa = Obj(g.Line, "line"), Obj(g.Gfa, "gfa")
+        heap = {s.oid: {"_gfa": gfa}, gfa.oid: {}}
+        def mk(name):
+            def m(E, st, pos, kw):
+                yield ("val", None, [], ev(st.with_ghost("owner_at_" + name, st.attrs(s).get("_gfa")), name))
+            return m
+        f = ctx.fn
+        D = "gfapy/line/common/disconnection.py::Disconnection."
+        order = ("field_backrefs", "field_refs", "dependants", "nonfield_backrefs", "nonfield_refs", "unregister")
+        models = {f("gfapy/line/common/connection.py::Connection.is_connected"): const_model(lambda self_: connected),
+                  f(D + "_remove_field_backreferences"): mk(order[0]), f(D + "_remove_field_references"): mk(order[1]),
+                  f(D + "_disconnect_dependent_lines"): mk(order[2]), f(D + "_remove_nonfield_backreferences"): mk(order[3]),
+                  f(D + "_remove_nonfield_references"): mk(order[4]), f("gfapy/lines/destructors.py::Destructors._unregister_line"): mk(order[5]),
+                  builtins_str(): const_model(lambda *a: Unknown("text"))}
+        def post(kd, v, st):
+            e = tuple(st.ghost.get("events", ()))
+            own = st.attrs(s).get("_gfa")
+            if kd == "raise":
+                return z3.And(z3.BoolVal(v.cls is g.RuntimeError and e == () and isinstance(own, Obj) and own.oid == gfa.oid), z3.Not(connected))
+            owner_kept_until_unregistered = all(isinstance(st.ghost.get("owner_at_" + n), Obj) for n in order)
+            return z3.And(connected, z3.BoolVal(e == order and own is None and owner_kept_until_unregistered))
+        return [Case("order", [s], post, heap=heap, models=models, symbols=dict(connected=connected), expect_paths=2)]
+
+
+def builtins_str():
+    import builtins
+    return builtins.str
+
+
+@register
+class DisconnectDependentLines(Contract):
+    fn = "gfapy/line/common/disconnection.py::Disconnection._disconnect_dependent_lines"
+    props = ("C05", "C02")
+    fragment = "L"
+    doc = ("every line that is in one of the dependent collections when the cascade starts is handed to _disconnect_dependent_line exactly once, "
+           "in order - although each such call shrinks the very collection being walked (the walk is over a snapshot: loop invariant over a "
+           "list that the callee rewrites)")
+
+    def cases(self, ctx):
+        g = ctx.gfapy
+        from .refs import refs_heap, AII
+        h0 = refs_heap()
+        h0["visited"] = z3.Const("visited_count", AII)
+        s = Ref(z3.Int("self"), g.line.edge.Link)          # Link.DEPENDENT_LINES = ["paths"]
+        key = sv("paths")
+        has = h0["refs_has"][s.t][key]
+        lid0 = h0["refs"][s.t][key]; n0 = h0["L_n"][lid0]; e0 = h0["L_e"][lid0]
+        j = z3.Int("j")
+        def m_dep(E, st, pos, kw):
+            self_, ref = pos
+            zh = dict(st.zh)
+            zh["visited"] = z3.Store(zh["visited"], ref.t, zh["visited"][ref.t] + 1)
+            # the dependent line disconnects itself and thereby deletes its entry from the collections of this line: arbitrary new contents
+            zh["L_n"] = fresh("L_n_after", zh["L_n"].sort()); zh["L_e"] = fresh("L_e_after", zh["L_e"].sort())
+            yield ("val", None, [], st.with_zh(zh))
+        models = {ctx.fn("gfapy/line/common/disconnection.py::Disconnection._disconnect_dependent_line"): m_dep}
+        def count_before(t, upto):
+            # number of positions < upto of the ORIGINAL list holding t  (as a bounded sum is not available: state it through distinctness)
+            return z3.If(z3.Exists([j], z3.And(0 <= j, j < upto, e0[j] == t)), 1, 0)
+        t = z3.Int("t")
+        j1, j2 = z3.Ints("j1 j2")
+        pre = [n0 >= 0, lid0 < h0["next_list"], z3.ForAll([t], h0["visited"][t] == 0),
+               z3.ForAll([j1, j2], z3.Implies(z3.And(0 <= j1, j1 < j2, j2 < n0), e0[j1] != e0[j2]))]     # a line occurs once in a dependent collection
+        def inv0(i, st):
+            return z3.And(i <= n0, z3.ForAll([t], st.zh["visited"][t] == count_before(t, i)))
+        inv = {("Disconnection._disconnect_dependent_lines", 1): dict(inv=inv0, modheap=["visited", "L_n", "L_e"], mod={"ref": lambda nm: Ref(fresh(nm, I))}),
+               ("Disconnection._disconnect_dependent_lines", 0): None}
+        def post(kd, v, st):
+            if kd == "raise":
+                return z3.BoolVal(False)
+            return z3.ForAll([t], st.zh["visited"][t] == z3.If(has, count_before(t, n0), 0))
+        return [Case("link", [s], post, pre=pre, zh=h0, models=models, invariants={k: v for k, v in inv.items() if v}, symbols={})]
